@@ -237,6 +237,7 @@ func (e *Engine) check(extra *Term) SatResult {
 			e.qcache[key] = e.lastCheck
 		}
 	}()
+	e.checkDeadline()
 	r, _ := e.sol.Check(e.pc, extra, nil)
 	e.lastCheck = r
 	if r == Unknown {
@@ -343,6 +344,7 @@ func (e *Engine) concretize(t *Term) uint64 {
 		if e.sol == nil {
 			panic("concretize in concrete mode")
 		}
+		e.checkDeadline()
 		r, vals := e.sol.Check(e.pc, cond, []*Term{t})
 		if r == Unknown {
 			e.inconclusive("solver-unknown")
@@ -632,6 +634,7 @@ func (e *Engine) doAssert(cond *Term, id string) {
 		e.reportViolation(id, "assert", "", "", nil)
 		panic(pathEnd{"assertstop", id})
 	}
+	e.checkDeadline()
 	r, _ := e.sol.Check(e.pc, neg, nil)
 	if len(e.res.Samples) < 6 {
 		e.res.Samples = append(e.res.Samples, fmt.Sprintf("assert %s under |pc|=%d: ¬(%s) is %s", id, len(e.pc), cond.str(4), r))
@@ -695,6 +698,7 @@ func (e *Engine) model(extra *Term) map[string]any {
 			}
 		}
 	}
+	e.checkDeadline()
 	r, vals := e.sol.Check(e.pc, extra, terms)
 	if r != Sat || vals == nil {
 		return m
@@ -832,4 +836,12 @@ func sortedKeys[V any](m map[string]V) []string {
 	}
 	sort.Strings(ks)
 	return ks
+}
+
+// checkDeadline ends the current path when the run's wall-clock budget is
+// exhausted (reported as inconclusive, never as held).
+func (e *Engine) checkDeadline() {
+	if !e.cfg.Deadline.IsZero() && time.Now().After(e.cfg.Deadline) {
+		panic(pathEnd{"budget", "wall-clock budget of the run"})
+	}
 }
